@@ -109,7 +109,7 @@ func (c07) Gen(r *sim.Rand, c *sim.Case, tier string) {
 			ops = append(ops, sim.Op{K: "md", D: s.slot, I: []int{r.Intn(32)}, S: []sim.Str{sim.Str(g.Markdown(Wild || i == listDoc))}})
 		}
 		ops = append(ops, g.DocOps(s.slot, r.Range(2, 18))...)
-		ops = sprinkleSaves(r, ops, s.slot, r.Range(2, 8), 0.25, 0)
+		ops = sprinkleSavesOpt(r, ops, s.slot, r.Range(2, 8), 0.25, 0, false)
 		ops = append(ops, sim.Op{K: "obs", D: s.slot, I: []int{btoiP(g.ObsCounts)}})
 		// a task that owns two documents interleaves them itself
 		c.Tasks[s.task] = interleave(r, c.Tasks[s.task], ops)
